@@ -1,7 +1,750 @@
-(* Proofs/BuiltinsProofs.v — proofs about Interp/Builtins.v *)
+(* Proofs/BuiltinsProofs.v — proofs about Interp/Builtins.v: no builtin model reaches a
+   Go index/slice panic, for all argument vectors, all library functions, all states
+   satisfying inv, and inv is preserved (so: for all histories). *)
 From Verif Require Import Base.Str Interp.Builtins.
+From Coq Require Import Strings.String.
 From Coq Require Import List ZArith NArith Lia Bool ZifyBool ZifyN ZifyNat.
 Import ListNotations.
 Open Scope Z_scope.
 
-Lemma placeholder : True. Proof. exact I. Qed.
+(* ------------------------------------------------------------ slices *)
+Lemma zlen_nonneg : forall A (l : list A), 0 <= zlen l.
+Proof. intros; unfold zlen; lia. Qed.
+
+Lemma zlen_cons : forall A (x : A) l, zlen (x :: l) = zlen l + 1.
+Proof. intros; unfold zlen; cbn [length]; lia. Qed.
+
+Lemma zlen_nil : forall A, zlen (@nil A) = 0.
+Proof. reflexivity. Qed.
+
+Lemma zlen_app : forall A (l1 l2 : list A), zlen (l1 ++ l2) = zlen l1 + zlen l2.
+Proof. intros; unfold zlen; rewrite app_length; lia. Qed.
+
+Lemma zlen_skipn : forall A (l : list A) i, 0 <= i <= zlen l -> zlen (skipn (Z.to_nat i) l) = zlen l - i.
+Proof. intros; unfold zlen in *; rewrite skipn_length; lia. Qed.
+
+Lemma zlen_firstn : forall A (l : list A) i, 0 <= i <= zlen l -> zlen (firstn (Z.to_nat i) l) = i.
+Proof. intros; unfold zlen in *; rewrite firstn_length; lia. Qed.
+
+Lemma idx_ok : forall A (l : list A) i, 0 <= i < zlen l -> exists x, idx l i = Ok x.
+Proof.
+  intros A l i H; unfold idx.
+  destruct (i <? 0) eqn:E; [lia|].
+  destruct (nth_error l (Z.to_nat i)) eqn:N; [eauto|].
+  apply nth_error_None in N; unfold zlen in H; lia.
+Qed.
+
+Lemma idx_head : forall A (x : A) l, idx (x :: l) 0 = Ok x.
+Proof. reflexivity. Qed.
+
+Lemma slice_from_ok : forall A (l : list A) i, 0 <= i <= zlen l -> slice_from l i = Ok (skipn (Z.to_nat i) l).
+Proof. intros; unfold slice_from. destruct ((i <? 0) || (zlen l <? i)) eqn:E; [lia|reflexivity]. Qed.
+
+Lemma slice_to_ok : forall A (l : list A) j, 0 <= j <= zlen l -> slice_to l j = Ok (firstn (Z.to_nat j) l).
+Proof. intros; unfold slice_to. destruct ((j <? 0) || (zlen l <? j)) eqn:E; [lia|reflexivity]. Qed.
+
+Lemma slice_ok : forall A (l : list A) i j, 0 <= i <= j -> j <= zlen l -> exists r, slice l i j = Ok r.
+Proof. intros; unfold slice. destruct ((i <? 0) || (j <? i) || (zlen l <? j)) eqn:E; [lia|eauto]. Qed.
+
+Lemma set_idx_ok : forall A (l : list A) i v, 0 <= i < zlen l ->
+  exists l', set_idx l i v = Ok l' /\ zlen l' = zlen l.
+Proof.
+  intros; unfold set_idx. destruct ((i <? 0) || (zlen l <=? i)) eqn:E; [lia|].
+  eexists; split; [reflexivity|].
+  unfold zlen in *. rewrite app_length; cbn [length]. rewrite firstn_length, skipn_length. lia.
+Qed.
+
+Lemma delete_at_ok : forall A (l : list A) i, 0 <= i < zlen l -> exists l', delete_at l i = Ok l'.
+Proof. intros; unfold delete_at. destruct ((i <? 0) || (zlen l <? i + 1)) eqn:E; [lia|eauto]. Qed.
+
+Ltac use_idx l i :=
+  let x := fresh "x" in let H := fresh "Hx" in
+  destruct (idx_ok _ l i) as [x H]; [try (unfold zlen in *; cbn [length] in *; lia) | rewrite H; cbn [res_bind]].
+
+(* ------------------------------------------------------------ shift *)
+Section WithExt.
+Variable atoi : str -> Z * bool.
+Variable atoi64 : str -> Z.
+Variable itoa : Z -> str.
+Variable runes_of : str -> list N.
+Variable str_of_runes : list N -> str.
+Variable index_rune : str -> N -> Z.
+Variable valid_name : str -> bool.
+Variable change_dir : str -> str -> option str.
+
+(* inv only mentions og_arg, og_rune, dirstack *)
+Definition same_core (a b : state) : Prop :=
+  og_arg a = og_arg b /\ og_rune a = og_rune b /\ dirstack a = dirstack b.
+
+Lemma inv_core : forall a b, same_core a b -> inv a -> inv b.
+Proof. unfold same_core, inv; intros a b0 (E1 & E2 & E3) H; rewrite <- E1, <- E2, <- E3; exact H. Qed.
+
+Definition okinv (r : res bres) : Prop := exists v, r = Ok v /\ inv (r_st v).
+
+Lemma ret_okinv : forall st c, inv st -> okinv (ret st c).
+Proof. intros; eexists; split; [reflexivity|assumption]. Qed.
+Lemma ret_out_okinv : forall st c o, inv st -> okinv (ret_out st c o).
+Proof. intros; eexists; split; [reflexivity|assumption]. Qed.
+
+Lemma shift_n_ok : forall st n, inv st -> okinv (shift_n st n).
+Proof.
+  intros st n I; unfold shift_n.
+  destruct (n <? 0) eqn:E1; [apply ret_okinv; assumption|].
+  destruct (zlen (params st) <=? n) eqn:E2; [apply ret_okinv; exact I|].
+  rewrite slice_from_ok by lia. cbn [res_bind]. apply ret_okinv; exact I.
+Qed.
+
+Lemma bi_shift_ok : forall args st, inv st -> okinv (bi_shift atoi args st).
+Proof.
+  intros args st I; unfold bi_shift.
+  destruct args as [|a [|a2 r]]; [apply shift_n_ok; assumption | | apply ret_okinv; assumption].
+  rewrite idx_head; cbn [res_bind]. destruct (atoi a) as [n ok]. destruct ok; [apply shift_n_ok|apply ret_okinv]; assumption.
+Qed.
+
+(* ------------------------------------------------------------ exit / return / break *)
+Lemma bi_exit_ok : forall args st, inv st -> okinv (bi_exit atoi args st).
+Proof.
+  intros args st I; unfold bi_exit.
+  destruct args as [|a [|a2 r]]; [eexists; split; [reflexivity|exact I] | | apply ret_okinv; assumption].
+  rewrite idx_head; cbn [res_bind]. destruct (atoi a) as [n ok]. destruct ok; [eexists; split; [reflexivity|exact I]|apply ret_okinv; assumption].
+Qed.
+
+Lemma bi_return_ok : forall args st, inv st -> okinv (bi_return atoi args st).
+Proof.
+  intros args st I; unfold bi_return.
+  destruct (negb (in_func st) && negb (in_source st)); [apply ret_okinv; assumption|].
+  destruct args as [|a [|a2 r]]; [eexists; split; [reflexivity|exact I] | | apply ret_okinv; assumption].
+  rewrite idx_head; cbn [res_bind]. destruct (atoi a) as [n ok]. destruct ok; [eexists; split; [reflexivity|exact I]|apply ret_okinv; assumption].
+Qed.
+
+Lemma bi_break_ok : forall cont args st, inv st -> okinv (bi_break atoi cont args st).
+Proof.
+  intros cont args st I; unfold bi_break.
+  destruct (negb (in_loop st)); [apply ret_okinv; assumption|].
+  destruct args as [|a [|a2 r]]; [| | apply ret_okinv; assumption].
+  - apply ret_okinv. destruct cont; exact I.
+  - rewrite idx_head; cbn [res_bind]. destruct (atoi a) as [n ok]. destruct ok; [|apply ret_okinv; assumption].
+    destruct (n <? 1); apply ret_okinv; [exact I|destruct cont; exact I].
+Qed.
+
+(* ------------------------------------------------------------ flagParser *)
+Definition flagchar (c : N) : Prop := c = MINUS \/ c = PLUS.
+Definition cur_ok (s : str) : Prop := s = [] \/ exists c d r, s = c :: d :: r /\ flagchar c.
+(* what fp_more = true guarantees *)
+Definition has_flag (p : fparser) : Prop :=
+  fp_cur p <> [] \/ exists c a rest, fp_rem p = (c :: a) :: rest /\ flagchar c.
+
+Definition rem_measure (rem : list str) : nat := fold_right (fun a n => (length a + 2 + n)%nat) O rem.
+Definition fmeasure (p : fparser) : nat := (length (fp_cur p) + rem_measure (fp_rem p))%nat.
+
+Lemma fp_more_ok : forall p, exists p' m, fp_more p = Ok (p', m) /\
+  (cur_ok (fp_cur p) -> cur_ok (fp_cur p')) /\ (m = true -> p' = p /\ has_flag p).
+Proof.
+  intros p; unfold fp_more.
+  destruct (fp_cur p) as [|c0 cr] eqn:EC; cbn [is_empty negb].
+  2:{ exists p, true. split; [reflexivity|]. split; [rewrite EC; auto|]. intros _; split; [reflexivity|left; rewrite EC; discriminate]. }
+  destruct (fp_rem p) as [|a rest] eqn:ER.
+  { cbn. eexists _, false. split; [reflexivity|]. split; [cbn; auto|discriminate]. }
+  rewrite zlen_cons. destruct (zlen rest + 1 =? 0) eqn:E0; [pose proof (zlen_nonneg _ rest); lia|].
+  rewrite idx_head; cbn [res_bind].
+  destruct (str_eqb a (b "--")).
+  { rewrite slice_from_ok by (rewrite zlen_cons; pose proof (zlen_nonneg _ rest); lia). cbn [res_bind].
+    eexists _, false. split; [reflexivity|]. split; [cbn; auto|discriminate]. }
+  destruct a as [|c ar].
+  { cbn. exists p, false. split; [reflexivity|]. split; [rewrite EC; auto|discriminate]. }
+  rewrite zlen_cons. destruct (zlen ar + 1 =? 0) eqn:E1; [pose proof (zlen_nonneg _ ar); lia|].
+  rewrite idx_head; cbn [res_bind].
+  destruct (N.eqb c MINUS) eqn:EM; cbn [negb andb].
+  { exists p, true. split; [reflexivity|]. split; [rewrite EC; auto|]. intros _; split; [reflexivity|].
+    right. exists c, ar, rest. split; [exact ER|left; apply N.eqb_eq; exact EM]. }
+  destruct (N.eqb c PLUS) eqn:EP; cbn [negb].
+  { exists p, true. split; [reflexivity|]. split; [rewrite EC; auto|]. intros _; split; [reflexivity|].
+    right. exists c, ar, rest. split; [exact ER|right; apply N.eqb_eq; exact EP]. }
+  exists p, false. split; [reflexivity|]. split; [rewrite EC; auto|discriminate].
+Qed.
+
+(* the flag returned: "-" / "+" alone, or a flag character followed by one byte *)
+Definition flag_shape (f : str) : Prop :=
+  (exists c, f = [c] /\ flagchar c) \/ (exists c d, f = [c; d] /\ flagchar c).
+
+Lemma split_flag : forall c (ar : str) (rem : list str) (nl : bool), flagchar c ->
+  exists p' f,
+    (let arg := c :: ar in
+     if 2 <? zlen arg then
+       a1 <- slice_to arg 1 ;; a2 <- slice_from arg 2 ;; f <- slice_to arg 2 ;;
+       Ok ({| fp_cur := a1 ++ a2; fp_rem := rem; fp_nil := nl |}, f)
+     else Ok ({| fp_cur := []; fp_rem := rem; fp_nil := nl |}, arg)) = Ok (p', f)
+    /\ cur_ok (fp_cur p') /\ flag_shape f /\ fp_rem p' = rem /\ (length (fp_cur p') < length (c :: ar))%nat.
+Proof.
+  intros c ar rem nl FC. cbv zeta.
+  destruct ar as [|d [|e r]].
+  - cbn. eexists _, _. split; [reflexivity|]. split; [left; reflexivity|]. split; [left; eauto|split; [reflexivity|cbn; lia]].
+  - cbn. eexists _, _. split; [reflexivity|]. split; [left; reflexivity|]. split; [right; eauto|split; [reflexivity|cbn; lia]].
+  - destruct (2 <? zlen (c :: d :: e :: r)) eqn:E; [|unfold zlen in E; cbn [length] in E; lia].
+    rewrite slice_to_ok by (unfold zlen; cbn [length]; lia).
+    rewrite slice_from_ok by (unfold zlen; cbn [length]; lia).
+    rewrite slice_to_ok by (unfold zlen; cbn [length]; lia).
+    cbn [res_bind]. change (Z.to_nat 1) with 1%nat. change (Z.to_nat 2) with 2%nat. cbn [firstn skipn app].
+    eexists _, _. split; [reflexivity|]. split; [right; cbn; eauto|]. split; [right; eauto|split; [reflexivity|cbn; lia]].
+Qed.
+
+Lemma fp_flag_ok : forall p, cur_ok (fp_cur p) -> has_flag p ->
+  exists p' f, fp_flag p = Ok (p', f) /\ cur_ok (fp_cur p') /\ flag_shape f /\ (fmeasure p' < fmeasure p)%nat.
+Proof.
+  intros p CO HF; unfold fp_flag.
+  destruct (fp_cur p) as [|c0 cr] eqn:EC; cbn [is_empty].
+  - destruct HF as [HF|(c & a & rest & ER & FC)]; [congruence|].
+    rewrite ER, idx_head; cbn [res_bind].
+    rewrite slice_from_ok by (rewrite zlen_cons; pose proof (zlen_nonneg _ rest); lia). cbn [res_bind].
+    change (Z.to_nat 1) with 1%nat; cbn [skipn fp_rem fp_nil].
+    destruct (split_flag c a rest (fp_nil p) FC) as (p' & f & E & C1 & C2 & C3 & C4).
+    cbv zeta in E. exists p', f. split; [exact E|]. split; [exact C1|]. split; [exact C2|].
+    unfold fmeasure, rem_measure in *. rewrite C3, EC, ER. cbn [fold_right length] in *. lia.
+  - cbn [res_bind].
+    destruct CO as [CO|(c & d & r & E1 & FC)]; [discriminate|]. inversion E1; subst c0 cr.
+    cbn [fp_rem fp_nil].
+    destruct (split_flag c (d :: r) (fp_rem p) (fp_nil p) FC) as (p' & f & E & C1 & C2 & C3 & C4).
+    cbv zeta in E. exists p', f. split; [exact E|]. split; [exact C1|]. split; [exact C2|].
+    unfold fmeasure. rewrite C3, EC. lia.
+Qed.
+
+Lemma fp_value_ok : forall p, exists p' v, fp_value p = Ok (p', v) /\ fp_cur p' = fp_cur p
+  /\ (rem_measure (fp_rem p') <= rem_measure (fp_rem p))%nat.
+Proof.
+  intros [cur rem nl]; unfold fp_value; cbn [fp_rem fp_cur fp_nil].
+  destruct rem as [|a rest].
+  - cbn. eexists _, _. split; [reflexivity|]. split; [reflexivity|cbn; lia].
+  - rewrite zlen_cons. destruct (zlen rest + 1 =? 0) eqn:E0; [pose proof (zlen_nonneg _ rest); lia|].
+    rewrite idx_head; cbn [res_bind].
+    rewrite slice_from_ok by (rewrite zlen_cons; pose proof (zlen_nonneg _ rest); lia). cbn [res_bind].
+    eexists _, _. split; [reflexivity|]. split; [reflexivity|]. cbn [fp_rem]. change (Z.to_nat 1) with 1%nat.
+    unfold rem_measure; cbn [skipn fold_right]. lia.
+Qed.
+
+Lemma flagchar_single : forall c, flagchar c -> str_eqb [c] [MINUS] || str_eqb [c] [PLUS] = true.
+Proof. intros c [E|E]; subst; reflexivity. Qed.
+
+Lemma two_not_single : forall c d e, str_eqb [c; d] [e] = false.
+Proof.
+  intros; unfold str_eqb; cbn [cmp_str]. destruct (N.compare c e); reflexivity.
+Qed.
+
+(* set / Params: with fuel above the measure the loop ends in Ok (never Panic, never out of fuel);
+   the state only changes in params and opts *)
+Lemma params_loop_ok : forall fuel p st out, cur_ok (fp_cur p) -> (fmeasure p < fuel)%nat ->
+  exists st' o c, params_loop fuel p st out = Ok (st', o, c) /\ same_core st st'.
+Proof.
+  induction fuel as [|fuel IH]; intros p st out CO FU; [lia|].
+  cbn [params_loop].
+  destruct (fp_more_ok p) as (p1 & m & E1 & C1 & M1). rewrite E1; cbn [res_bind].
+  destruct m; cbn [negb].
+  2:{ destruct (fp_nil p1); eexists _, _, _; (split; [reflexivity|]); unfold same_core; cbn; auto. }
+  destruct (M1 eq_refl) as [-> HF].
+  destruct (fp_flag_ok p CO HF) as (p2 & f & E2 & C2 & FS & M2). rewrite E2; cbn [res_bind].
+  destruct FS as [(c & -> & FC)|(c & d & -> & FC)].
+  { rewrite flagchar_single by exact FC.
+    destruct (0 <? zlen (fp_rem p2)); eexists _, _, _; (split; [reflexivity|]); unfold same_core; cbn; auto. }
+  rewrite !two_not_single; cbn [orb].
+  change (idx [c; d] 0) with (Ok (A:=N) c). change (idx [c; d] 1) with (Ok (A:=N) d). cbn [res_bind].
+  destruct (negb (N.eqb d 111)).
+  { destruct (opt_by_flag d); [|eexists _, _, _; split; [reflexivity|unfold same_core; auto]].
+    destruct (IH p2 (set_opts st (set_nth (opts st) n (N.eqb c MINUS))) out C2) as (st' & o & cc & H & SC); [lia|].
+    eexists _, _, _; split; [exact H|exact SC]. }
+  destruct (fp_value_ok p2) as (p3 & v & E3 & C3 & M3). rewrite E3; cbn [res_bind].
+  assert (CO3 : cur_ok (fp_cur p3)) by (rewrite C3; exact C2).
+  assert (FU3 : (fmeasure p3 < fuel)%nat) by (unfold fmeasure in *; rewrite C3; lia).
+  destruct (is_empty v && N.eqb c MINUS).
+  { destruct (IH p3 st (out ++ print_opts st) CO3 FU3) as (st' & o & cc & H & SC).
+    eexists _, _, _; split; [exact H|exact SC]. }
+  destruct (is_empty v).
+  { destruct (IH p3 st (out ++ print_set_opts st) CO3 FU3) as (st' & o & cc & H & SC).
+    eexists _, _, _; split; [exact H|exact SC]. }
+  destruct (opt_by_name v); [|eexists _, _, _; split; [reflexivity|unfold same_core; auto]].
+  destruct (IH p3 (set_opts st (set_nth (opts st) n (N.eqb c MINUS))) out CO3 FU3) as (st' & o & cc & H & SC).
+  eexists _, _, _; split; [exact H|exact SC].
+Qed.
+
+Lemma bi_set_ok : forall args st, inv st -> okinv (bi_set args st).
+Proof.
+  intros args st I; unfold bi_set.
+  destruct (params_loop_ok (params_fuel args) (fp_init args) st [] (or_introl eq_refl)) as (st' & o & c & H & SC).
+  { unfold fmeasure, params_fuel, fp_init, rem_measure; cbn [fp_cur fp_rem length]. lia. }
+  rewrite H; cbn [res_bind]. apply ret_out_okinv. eapply inv_core; eassumption.
+Qed.
+
+(* ------------------------------------------------------------ wait *)
+Lemma wait_loop_ok : forall l st code, inv st -> okinv (wait_loop atoi64 l st code).
+Proof.
+  induction l as [|a r IH]; intros st code I; cbn [wait_loop]; [apply ret_okinv; assumption|].
+  destruct (cut_prefix_g a) as [a' ok].
+  destruct (negb ok || (atoi64 a' <=? 0) || (zlen (bg st) <? atoi64 a')) eqn:E; [apply ret_okinv; assumption|].
+  use_idx (bg st) (atoi64 a' - 1). apply IH; assumption.
+Qed.
+
+Lemma bi_wait_ok : forall args st, inv st -> okinv (bi_wait atoi64 args st).
+Proof.
+  intros args st I; unfold bi_wait.
+  destruct (fp_more_ok (fp_init args)) as (p1 & m & E1 & C1 & M1). rewrite E1; cbn [res_bind].
+  destruct m.
+  - destruct (M1 eq_refl) as [-> HF].
+    destruct (fp_flag_ok (fp_init args) (or_introl eq_refl) HF) as (p2 & f & E2 & _). rewrite E2; cbn [res_bind].
+    apply ret_okinv; assumption.
+  - destruct (zlen args =? 0); [apply ret_okinv; assumption|apply wait_loop_ok; assumption].
+Qed.
+
+(* ------------------------------------------------------------ dirs / pushd / popd *)
+Lemma swap_ok : forall ds, 2 <= zlen ds -> exists ds' t, swap ds = Ok (ds', t) /\ zlen ds' = zlen ds.
+Proof.
+  intros ds H; unfold swap.
+  use_idx ds (zlen ds - 1). use_idx ds (zlen ds - 2).
+  destruct (set_idx_ok _ ds (zlen ds - 1) x0) as (l1 & E1 & L1); [lia|]. rewrite E1; cbn [res_bind].
+  destruct (set_idx_ok _ l1 (zlen ds - 2) x) as (l2 & E2 & L2); [lia|]. rewrite E2; cbn [res_bind].
+  eexists _, _; split; [reflexivity|lia].
+Qed.
+
+Lemma do_chdir_core : forall st path st', do_chdir change_dir st path = Some st' -> same_core st st'.
+Proof.
+  intros st path st'; unfold do_chdir. destruct (change_dir (dir st) path); [|discriminate].
+  intros E; inversion E; unfold same_core; cbn; auto.
+Qed.
+
+Lemma strip_n_ok : forall args, exists c a, strip_n args = Ok (c, a).
+Proof.
+  intros args; unfold strip_n. destruct args as [|a r]; [cbn; eauto|].
+  rewrite zlen_cons. destruct (0 <? zlen r + 1) eqn:E; [|pose proof (zlen_nonneg _ r); lia].
+  rewrite idx_head; cbn [res_bind]. destruct (str_eqb a (b "-n")); [|eauto].
+  rewrite slice_from_ok by (rewrite zlen_cons; pose proof (zlen_nonneg _ r); lia). cbn [res_bind]. eauto.
+Qed.
+
+Lemma inv_set_dirstack : forall st ds, inv st -> 1 <= zlen ds -> inv (set_dirstack st ds).
+Proof. unfold inv; intros st ds (A & B & C) H; cbn; auto. Qed.
+
+Lemma bi_pushd_ok : forall args st, inv st -> okinv (bi_pushd change_dir args st).
+Proof.
+  intros args st I; unfold bi_pushd.
+  destruct (strip_n_ok args) as (change & a & E). rewrite E; cbn [res_bind].
+  assert (D : 1 <= zlen (dirstack st)) by (destruct I as (_ & _ & D); exact D).
+  destruct a as [|a0 [|a1 r]]; [| |apply ret_okinv; assumption].
+  - destruct change; cbn [negb]; [|apply ret_okinv; assumption].
+    destruct (zlen (dirstack st) <? 2) eqn:E2; [apply ret_okinv; assumption|].
+    destruct (swap_ok (dirstack st)) as (ds' & t & ES & L); [lia|]. rewrite ES; cbn [res_bind].
+    assert (I1 : inv (set_dirstack st ds')) by (apply inv_set_dirstack; [assumption|lia]).
+    destruct (do_chdir change_dir (set_dirstack st ds') t) eqn:EC; [|apply ret_okinv; assumption].
+    apply ret_out_okinv. eapply inv_core; [eapply do_chdir_core; exact EC|exact I1].
+  - rewrite idx_head; cbn [res_bind]. destruct change.
+    + destruct (do_chdir change_dir st a0) eqn:EC; [|apply ret_okinv; assumption].
+      apply ret_out_okinv. apply inv_set_dirstack.
+      * eapply inv_core; [eapply do_chdir_core; exact EC|exact I].
+      * rewrite zlen_app. pose proof (zlen_nonneg _ (dirstack s)). unfold zlen at 2; cbn [length]. lia.
+    + destruct (swap_ok (dirstack st ++ [a0])) as (ds' & t & ES & L);
+        [rewrite zlen_app; unfold zlen at 2; cbn [length]; lia|].
+      rewrite ES; cbn [res_bind fst]. apply ret_out_okinv. apply inv_set_dirstack; [assumption|].
+      rewrite L, zlen_app. unfold zlen at 2; cbn [length]; lia.
+Qed.
+
+Lemma bi_popd_ok : forall args st, inv st -> okinv (bi_popd change_dir args st).
+Proof.
+  intros args st I; unfold bi_popd.
+  destruct (strip_n_ok args) as (change & a & E). rewrite E; cbn [res_bind].
+  destruct a as [|a0 r]; [|apply ret_okinv; assumption].
+  cbv zeta.
+  destruct (zlen (dirstack st) <? 2) eqn:E2; [apply ret_okinv; assumption|].
+  use_idx (dirstack st) (zlen (dirstack st) - 1).
+  rewrite slice_to_ok by lia. cbn [res_bind].
+  set (ds1 := firstn (Z.to_nat (zlen (dirstack st) - 1)) (dirstack st)).
+  assert (L1 : zlen ds1 = zlen (dirstack st) - 1) by (apply zlen_firstn; lia).
+  destruct change.
+  - use_idx ds1 (zlen ds1 - 1).
+    assert (I1 : inv (set_dirstack st ds1)) by (apply inv_set_dirstack; [assumption|lia]).
+    destruct (do_chdir change_dir (set_dirstack st ds1) x0) eqn:EC; [|apply ret_okinv; assumption].
+    apply ret_out_okinv. eapply inv_core; [eapply do_chdir_core; exact EC|exact I1].
+  - destruct (set_idx_ok _ ds1 (zlen ds1 - 1) x) as (l2 & E3 & L2); [lia|]. rewrite E3; cbn [res_bind].
+    apply ret_out_okinv. apply inv_set_dirstack; [assumption|lia].
+Qed.
+
+Lemma bi_dirs_ok : forall args st, inv st -> okinv (bi_dirs args st).
+Proof. intros; unfold bi_dirs; apply ret_out_okinv; assumption. Qed.
+
+(* ------------------------------------------------------------ getopts *)
+Lemma getopts_next_ok : forall optstr args g, 0 <= g_arg g -> 0 <= g_rune g ->
+  exists g' o oa d, getopts_next runes_of str_of_runes index_rune optstr args g = Ok (g', o, oa, d)
+                    /\ 0 <= g_arg g' /\ 0 <= g_rune g'.
+Proof.
+  intros optstr args g A R; unfold getopts_next, getopts_next_gen, g_done.
+  destruct ((zlen args =? 0) || (zlen args <=? g_arg g)) eqn:E0; [eauto 10|].
+  use_idx args (g_arg g).
+  set (arg := runes_of x).
+  destruct (zlen arg <? 2) eqn:E1; [eauto 10|].
+  use_idx arg 0.
+  destruct (negb (N.eqb x0 MINUS)); [eauto 10|].
+  use_idx arg 1.
+  destruct (N.eqb x1 MINUS); [eauto 10|].
+  rewrite slice_from_ok by lia. cbn [res_bind]. change (Z.to_nat 1) with 1%nat.
+  set (opts := skipn 1 arg).
+  assert (LO : zlen opts = zlen arg - 1) by (apply (zlen_skipn _ arg 1); lia).
+  cbn [andb].
+  set (g1 := if zlen opts <=? g_rune g then {| g_arg := g_arg g; g_rune := 0 |} else g).
+  assert (G1 : g_arg g1 = g_arg g /\ 0 <= g_rune g1 < zlen opts).
+  { unfold g1; destruct (zlen opts <=? g_rune g) eqn:EF; cbn [g_arg g_rune]; lia. }
+  destruct G1 as (GA & GR).
+  use_idx opts (g_rune g1).
+  set (i := index_rune optstr x2).
+  assert (NA : exists na, (if (0 <=? i) && (i + 1 <? zlen optstr)
+                then c <- idx optstr (i + 1);; Ok (N.eqb c COLON) else Ok false) = Ok na).
+  { destruct ((0 <=? i) && (i + 1 <? zlen optstr)) eqn:EI; [|eauto].
+    use_idx optstr (i + 1). eauto. }
+  destruct NA as (na & ->); cbn [res_bind].
+  destruct na.
+  - destruct (g_rune g1 + 1 <? zlen opts) eqn:E2.
+    + rewrite slice_from_ok by lia. cbn [res_bind]. eexists _, _, _, _; split; [reflexivity|cbn; lia].
+    + destruct (g_arg g1 + 1 <? zlen args) eqn:E3.
+      * use_idx args (g_arg g1 + 1). eexists _, _, _, _; split; [reflexivity|cbn; lia].
+      * eexists _, _, _, _; split; [reflexivity|cbn; lia].
+  - destruct (g_rune g1 + 1 <? zlen opts) eqn:E2; destruct (i <? 0); eexists _, _, _, _; (split; [reflexivity|cbn; lia]).
+Qed.
+
+Lemma inv_set_og : forall st a r, inv st -> 0 <= a -> 0 <= r -> inv (set_og st a r).
+Proof. unfold inv; intros st a r (A & B & C) HA HR; cbn; auto. Qed.
+
+Lemma bi_getopts_ok : forall args st, inv st ->
+  okinv (bi_getopts atoi itoa runes_of str_of_runes index_rune valid_name args st).
+Proof.
+  intros args st I; unfold bi_getopts, bi_getopts_gen.
+  destruct (zlen args <? 2) eqn:E0; [apply ret_okinv; assumption|].
+  cbv zeta.
+  set (optind0 := fst (atoi (env_get st (b "OPTIND")))).
+  set (reset := negb (optind0 - 1 =? og_arg st)).
+  set (optind := if reset && (optind0 <? 1) then 1 else optind0).
+  set (st1 := if reset then set_og st (optind - 1) 0 else st).
+  assert (I1 : inv st1).
+  { unfold st1. destruct reset; [|exact I]. apply inv_set_og; [exact I| |lia].
+    unfold optind; cbn [andb]. destruct (optind0 <? 1) eqn:EO; lia. }
+  use_idx args 0. use_idx args 1.
+  destruct (negb (valid_name x0)); [apply ret_okinv; assumption|].
+  rewrite slice_from_ok by lia. cbn [res_bind].
+  set (gargs := if zlen (skipn (Z.to_nat 2) args) =? 0 then params st1 else skipn (Z.to_nat 2) args).
+  destruct I1 as (A1 & R1 & D1).
+  destruct (getopts_next_ok x gargs {| g_arg := og_arg st1; g_rune := og_rune st1 |} A1 R1)
+    as (g' & o & oa & d & EG & GA & GR).
+  unfold getopts_next in EG. rewrite EG; cbn [res_bind].
+  apply ret_okinv. unfold inv; cbn. auto.
+Qed.
+
+(* ------------------------------------------------------------ the loop machine *)
+Definition okst {A} (r : res (state * A)) : Prop := exists st' a, r = Ok (st', a) /\ inv st'.
+
+Lemma inv_set_cnt : forall st v, inv st -> inv (set_cnt st v).  Proof. unfold inv; cbn; auto. Qed.
+Lemma inv_set_brk : forall st v, inv st -> inv (set_brk st v).  Proof. unfold inv; cbn; auto. Qed.
+Lemma inv_set_last : forall st v, inv st -> inv (set_last st v).  Proof. unfold inv; cbn; auto. Qed.
+Lemma inv_set_in_loop : forall st v, inv st -> inv (set_in_loop st v).  Proof. unfold inv; cbn; auto. Qed.
+Lemma inv_set_in_func : forall st v, inv st -> inv (set_in_func st v).  Proof. unfold inv; cbn; auto. Qed.
+Lemma inv_set_vars : forall st v, inv st -> inv (set_vars st v).  Proof. unfold inv; cbn; auto. Qed.
+Lemma inv_set_bg : forall st v, inv st -> inv (set_bg st v).  Proof. unfold inv; cbn; auto. Qed.
+
+Lemma stmts_broken_ok : forall (exec : lstmt -> state -> res (state * list (list str))) old l,
+  Forall (fun s => forall st, inv st -> okst (exec s st)) l ->
+  forall st, inv st -> exists st' ev bk, stmts_broken exec old l st = Ok (st', ev, bk) /\ inv st'.
+Proof.
+  intros exec old l F; induction F as [|s l Hs F IH]; intros st I; cbn [stmts_broken]; [eauto 10|].
+  destruct (Hs st I) as (st1 & ev & E & I1). rewrite E; cbn [res_bind].
+  destruct (0 <? cnt st1); [eexists _, _, _; split; [reflexivity|apply inv_set_cnt; exact I1]|].
+  destruct (0 <? brk st1); [eexists _, _, _; split; [reflexivity|apply inv_set_brk; exact I1]|].
+  destruct (IH st1 I1) as (st2 & ev2 & bk & E2 & I2). rewrite E2; cbn [res_bind]. eauto 10.
+Qed.
+
+Lemma for_iter_ok : forall (run_body : bool -> state -> res (state * list (list str) * bool)),
+  (forall old st, inv st -> exists st' ev bk, run_body old st = Ok (st', ev, bk) /\ inv st') ->
+  forall k st, inv st -> okst (for_iter run_body k st).
+Proof.
+  intros run_body HB; induction k as [|k IH]; intros st I; cbn [for_iter]; [eexists _, _; eauto|].
+  destruct (unwinding st); [eexists _, _; eauto|].
+  destruct (HB (in_loop st) (set_in_loop st true) (inv_set_in_loop _ _ I)) as (st1 & ev & bk & E & I1).
+  rewrite E; cbn [res_bind].
+  destruct bk; [eexists _, _; split; [reflexivity|apply inv_set_in_loop; exact I1]|].
+  destruct (IH (set_in_loop st1 (in_loop st)) (inv_set_in_loop _ _ I1)) as (st2 & ev2 & E2 & I2).
+  rewrite E2; cbn [res_bind]. eexists _, _; eauto.
+Qed.
+
+(* induction principle for the nested type *)
+Fixpoint lstmt_ind' (P : lstmt -> Prop)
+  (Ho : forall t, P (LObs t)) (Hb : forall c a, P (LBrk c a))
+  (Hf : forall n body, Forall P body -> P (LFor n body)) (s : lstmt) : P s :=
+  match s with
+  | LObs t => Ho t
+  | LBrk c a => Hb c a
+  | LFor n body =>
+      Hf n body ((fix go (l : list lstmt) : Forall P l :=
+                    match l with
+                    | [] => Forall_nil P
+                    | x :: r => Forall_cons x (lstmt_ind' P Ho Hb Hf x) (go r)
+                    end) body)
+  end.
+
+Lemma exec_stmt_ok : forall s st, inv st -> okst (exec_stmt atoi itoa s st).
+Proof.
+  induction s using lstmt_ind'; intros st I.
+  - cbn [exec_stmt]. destruct (unwinding st); eexists _, _; (split; [reflexivity|]); [exact I|apply inv_set_last; exact I].
+  - cbn [exec_stmt]. destruct (unwinding st); [eexists _, _; eauto|].
+    destruct (bi_break_ok c a st I) as (v & E & IV). rewrite E; cbn [res_bind].
+    eexists _, _; split; [reflexivity|apply inv_set_last; exact IV].
+  - cbn [exec_stmt]. destruct (unwinding st); [eexists _, _; eauto|].
+    apply for_iter_ok; [|exact I]. intros old st0 I0. apply stmts_broken_ok; assumption.
+Qed.
+
+(* ------------------------------------------------------------ calls and histories *)
+Definition okcall (r : res (state * list (list str) * option Z)) : Prop :=
+  exists st' ev ex, r = Ok (st', ev, ex) /\ inv st'.
+
+Lemma fin_ok : forall (r : res bres), okinv r ->
+  okcall (v <- r ;; Ok (set_last (r_st v) 0, [observe itoa (r_st v) (r_code v) (r_out v)], None)).
+Proof.
+  intros r (v & -> & I); cbn [res_bind]. eexists _, _, _; split; [reflexivity|apply inv_set_last; exact I].
+Qed.
+
+Lemma run_call_ok : forall c st, inv st ->
+  okcall (run_call atoi atoi64 itoa runes_of str_of_runes index_rune valid_name change_dir c st).
+Proof.
+  intros c st I; destruct c; cbn [run_call].
+  - apply fin_ok, bi_set_ok, I.
+  - apply fin_ok, bi_shift_ok, I.
+  - apply fin_ok, bi_getopts_ok, I.
+  - eexists _, _, _; split; [reflexivity|apply inv_set_last, inv_set_vars, I].
+  - eexists _, _, _; split; [reflexivity|apply inv_set_last, inv_set_vars, I].
+  - apply fin_ok, bi_pushd_ok, I.
+  - apply fin_ok, bi_popd_ok, I.
+  - apply fin_ok, bi_dirs_ok, I.
+  - apply fin_ok, bi_wait_ok, I.
+  - eexists _, _, _; split; [reflexivity|apply inv_set_last, inv_set_bg, I].
+  - apply fin_ok, bi_break_ok, I.
+  - apply fin_ok, bi_return_ok, I.
+  - destruct (exec_stmt_ok (loop_prog cont args) (set_last st 0) (inv_set_last _ _ I)) as (st1 & ev & E & I1).
+    rewrite E; cbn [res_bind]. eexists _, _, _; split; [reflexivity|apply inv_set_last, I1].
+  - destruct (bi_return_ok args (set_in_func st true) (inv_set_in_func _ _ I)) as (v & E & IV).
+    rewrite E; cbn [res_bind].
+    destruct (r_flow v); eexists _, _, _; (split; [reflexivity|apply inv_set_last, inv_set_in_func, IV]).
+  - destruct (bi_exit_ok args st I) as (v & E & IV). rewrite E; cbn [res_bind].
+    destruct (r_flow v); eexists _, _, _; (split; [reflexivity|]); try exact IV; apply inv_set_last, IV.
+Qed.
+
+(* every history of calls from every state satisfying inv *)
+Lemma run_calls_ok : forall cs st, inv st ->
+  exists st' ev code,
+    run_calls atoi atoi64 itoa runes_of str_of_runes index_rune valid_name change_dir cs st = Ok (st', ev, code) /\ inv st'.
+Proof.
+  induction cs as [|c cs IH]; intros st I; cbn [run_calls]; [eauto 10|].
+  destruct (run_call_ok c st I) as (st1 & ev & ex & E & I1). rewrite E; cbn [res_bind].
+  destruct ex; [eauto 10|].
+  destruct (IH st1 I1) as (st2 & ev2 & code & E2 & I2). rewrite E2; cbn [res_bind]. eauto 10.
+Qed.
+
+End WithExt.
+
+Lemma init_inv : forall d, inv (init_state d).
+Proof. intros; unfold inv, init_state, zlen; cbn; lia. Qed.
+
+Lemma okinv_not_panic : forall r, okinv r -> r <> Panic.
+Proof. intros r (v & -> & _); discriminate. Qed.
+
+(* ------------------------------------------------------------ positional parameters *)
+Lemma positional_total : forall c st, positional c st <> Panic.
+Proof.
+  intros c st; unfold positional.
+  destruct ((49 <=? Z.of_N c) && (Z.of_N c <=? 57)) eqn:E; [|discriminate].
+  destruct (Z.of_N c - 49 <? zlen (params st)) eqn:E2; [|discriminate].
+  use_idx (params st) (Z.of_N c - 49). discriminate.
+Qed.
+
+(* ------------------------------------------------------------ unset 'a[i]' *)
+Lemma index_byte_app_last : forall c pre d i, index_byte c (pre ++ [d]) = Some i -> d <> c -> (i < length pre)%nat.
+Proof.
+  induction pre as [|x pre IH]; intros d i H ND; cbn in H.
+  - destruct (N.eqb d c) eqn:E; [apply N.eqb_eq in E; congruence|discriminate].
+  - destruct (N.eqb x c); [inversion H; cbn; lia|].
+    destruct (index_byte c (pre ++ [d])) eqn:E; [|discriminate]. inversion H; subst. cbn. specialize (IH d n E ND). lia.
+Qed.
+
+Lemma cut_elem_subscript_total : forall vn arg, cut_elem_subscript vn arg <> Panic.
+Proof.
+  intros vn arg; unfold cut_elem_subscript.
+  destruct (index_byte 91 arg) as [i0|] eqn:EI; [|discriminate].
+  destruct (rev arg) as [|d t] eqn:ER; [rewrite andb_false_r; discriminate|].
+  destruct (N.eqb d 93) eqn:ED; [|rewrite andb_false_r; discriminate].
+  destruct (0 <? Z.of_nat i0) eqn:E0; [|discriminate]. cbn [andb].
+  assert (EA : arg = rev t ++ [d]) by (rewrite <- (rev_involutive arg), ER; reflexivity).
+  apply N.eqb_eq in ED. subst d.
+  assert (LT : (i0 < length (rev t))%nat) by (apply (index_byte_app_last 91 (rev t) 93); [rewrite <- EA; exact EI|discriminate]).
+  assert (LA : zlen arg = Z.of_nat (length (rev t)) + 1) by (rewrite EA, zlen_app; unfold zlen; cbn [length]; lia).
+  rewrite slice_to_ok by lia. cbn [res_bind].
+  destruct (vn _); [|discriminate].
+  destruct (slice_ok _ arg (Z.of_nat i0 + 1) (zlen arg - 1)) as (r & ->); [lia|lia|]. discriminate.
+Qed.
+
+Lemma lower_bound_range : forall l k, 0 <= lower_bound l k <= zlen l.
+Proof.
+  induction l as [|x l IH]; intros k; cbn [lower_bound]; [unfold zlen; cbn; lia|].
+  rewrite zlen_cons. destruct (x <? k); [specialize (IH k); lia|pose proof (zlen_nonneg _ l); lia].
+Qed.
+
+Lemma delete_indexed_elem_total : forall l ix k, var_wf l ix -> delete_indexed_elem l ix k <> Panic.
+Proof.
+  intros l ix k WF; unfold delete_indexed_elem.
+  assert (SP : forall ix', length ix' = length l ->
+     (let pos := lower_bound ix' k in
+      found <- (if pos <? zlen ix' then e <- idx ix' pos;; Ok (e =? k) else Ok false);;
+      (if negb found then Ok (l, ix')
+       else l' <- delete_at l pos;; ix'0 <- delete_at ix' pos;; Ok (l', canonical_indexes ix'0))) <> Panic).
+  { intros ix' EL; cbv zeta. pose proof (lower_bound_range ix' k) as LB.
+    assert (ZL : zlen ix' = zlen l) by (unfold zlen; rewrite EL; reflexivity).
+    destruct (lower_bound ix' k <? zlen ix') eqn:E1; cbn [res_bind negb]; [|discriminate].
+    use_idx ix' (lower_bound ix' k).
+    destruct (x =? k); cbn [negb]; [|discriminate].
+    destruct (delete_at_ok _ l (lower_bound ix' k)) as (l' & ->); [lia|]. cbn [res_bind].
+    destruct (delete_at_ok _ ix' (lower_bound ix' k)) as (i' & ->); [lia|]. cbn [res_bind]. discriminate. }
+  destruct ix as [|i0 ix]; cbn [is_empty].
+  - destruct ((k <? 0) || (zlen l <=? k)) eqn:E; [discriminate|].
+    destruct (k =? zlen l - 1) eqn:E2.
+    + rewrite slice_to_ok by lia. cbn [res_bind]. discriminate.
+    + apply SP. rewrite map_length, seq_length. reflexivity.
+  - apply SP. destruct WF as [WF|WF]; [discriminate|exact WF].
+Qed.
+
+Lemma unset_indexed_total : forall l ix k, var_wf l ix -> unset_indexed l ix k <> Panic.
+Proof.
+  intros l ix k WF; unfold unset_indexed.
+  destruct (k <? 0).
+  - unfold indexed_max. destruct (0 <? zlen ix) eqn:E.
+    + use_idx ix (zlen ix - 1). destruct (k + x + 1 <? 0); [discriminate|].
+      pose proof (delete_indexed_elem_total l ix (k + x + 1) WF).
+      destruct (delete_indexed_elem l ix (k + x + 1)); cbn [res_bind]; congruence.
+    + cbn [res_bind]. destruct (k + (zlen l - 1) + 1 <? 0); [discriminate|].
+      pose proof (delete_indexed_elem_total l ix (k + (zlen l - 1) + 1) WF).
+      destruct (delete_indexed_elem l ix (k + (zlen l - 1) + 1)); cbn [res_bind]; congruence.
+  - pose proof (delete_indexed_elem_total l ix k WF).
+    destruct (delete_indexed_elem l ix k); cbn [res_bind]; congruence.
+Qed.
+
+(* ------------------------------------------------------------ ${v:o:l}, ${@:o:l}, ${a[@]:o:l} *)
+Lemma slice_pos_range : forall len n, 0 <= len -> 0 <= slice_pos len n <= len.
+Proof.
+  intros len n H; unfold slice_pos.
+  destruct (n <? 0) eqn:E1; [destruct (len + n <? 0) eqn:E2; lia|destruct (len <? n) eqn:E3; lia].
+Qed.
+
+Lemma slice_str_total : forall rs off len, slice_str rs off len <> Panic.
+Proof.
+  intros rs off len; unfold slice_str.
+  assert (H1 : exists rs1, match off with Some o => slice_from rs (slice_pos (zlen rs) o) | None => Ok rs end = Ok rs1).
+  { destruct off as [o|]; [|eauto]. rewrite slice_from_ok; [eauto|]. apply slice_pos_range, zlen_nonneg. }
+  destruct H1 as (rs1 & ->); cbn [res_bind].
+  destruct len as [l|]; [|discriminate].
+  rewrite slice_to_ok; [discriminate|]. apply slice_pos_range, zlen_nonneg.
+Qed.
+
+Lemma slice_elems_total : forall arg0 elems ix positional off len,
+  ix = [] \/ (positional = false /\ length ix = length elems) ->
+  slice_elems arg0 elems ix positional off len <> Panic.
+Proof.
+  intros arg0 elems ix positional off len WF; unfold slice_elems.
+  set (el := if positional then arg0 :: elems else elems).
+  assert (FIN : forall e1 : list str,
+     match len with Some l => slice_to e1 (slice_pos (zlen e1) l) | None => Ok e1 end <> Panic).
+  { intros e1. destruct len as [l|]; [|discriminate].
+    rewrite slice_to_ok; [discriminate|]. apply slice_pos_range, zlen_nonneg. }
+  destruct off as [o|]; [|cbn [res_bind]; apply FIN].
+  destruct (0 <? zlen ix) eqn:E.
+  - destruct WF as [->|(-> & EL)]; [unfold zlen in E; cbn in E; lia|].
+    use_idx ix (zlen ix - 1). cbv zeta.
+    match goal with |- context [lower_bound ix ?k] => pose proof (lower_bound_range ix k) as LB end.
+    assert (ZL : zlen ix = zlen el) by (unfold el, zlen; rewrite EL; reflexivity).
+    rewrite slice_from_ok by lia. cbn [res_bind]. apply FIN.
+  - rewrite slice_from_ok by (apply slice_pos_range, zlen_nonneg). cbn [res_bind]. apply FIN.
+Qed.
+
+(* ------------------------------------------------------------ refutations of the pre-fix code *)
+Definition st_ab : state := set_params (init_state (b "/T")) [b "a"; b "b"].
+
+Lemma shift_prefix_refuted : bi_shift_prefix atoi_c [b "-1"] st_ab = Panic.
+Proof. vm_compute. reflexivity. Qed.
+
+(* set -- -ab; getopts ab x; set -- -a; getopts ab x *)
+Definition getopts_hist (fixed : bool) : res bres :=
+  let go := bi_getopts_gen atoi_c itoa_c runes_of_c str_of_runes_c index_rune_c valid_name_c fixed [b "ab"; b "x"] in
+  r1 <- go (set_params (init_state (b "/T")) [b "-ab"]) ;;
+  go (set_params (r_st r1) [b "-a"]).
+
+Lemma getopts_prefix_refuted : getopts_hist false = Panic.
+Proof. vm_compute. reflexivity. Qed.
+
+Lemma getopts_fixed_witness : exists v, getopts_hist true = Ok v /\ var_get (vars (r_st v)) (b "x") = Some (b "a").
+Proof. vm_compute. eexists; split; reflexivity. Qed.
+
+(* ------------------------------------------------------------ the statements of Props/C28.v *)
+(* Lemmas proved inside the section are generalised over all eight library functions (lia reverts the
+   context); where the statement does not mention one of them, any function can be supplied. *)
+Ltac dummies :=
+  first [ exact (fun _ : str => (0, false)) | exact (fun _ : str => 0) | exact (fun _ : Z => @nil N)
+        | exact (fun _ : str => @nil N) | exact (fun _ : list N => @nil N) | exact (fun (_ : str) (_ : N) => 0)
+        | exact (fun _ : str => false) | exact (fun (_ _ : str) => @None str) ].
+Ltac via L := apply okinv_not_panic; unshelve eapply L; try assumption; dummies.
+
+Lemma shift_prefix_refuted_ex : exists args st, inv st /\ bi_shift_prefix atoi_c args st = Panic.
+Proof. exists [b "-1"], st_ab. split; [apply init_inv|exact shift_prefix_refuted]. Qed.
+
+Lemma shift_total : forall atoi args st, inv st -> bi_shift atoi args st <> Panic.
+Proof. intros atoi args st I. via bi_shift_ok. Qed.
+
+Lemma getopts_total : forall atoi itoa runes_of str_of_runes index_rune valid_name args st, inv st ->
+  bi_getopts atoi itoa runes_of str_of_runes index_rune valid_name args st <> Panic.
+Proof. intros atoi itoa ro sr ir vn args st I. via bi_getopts_ok. Qed.
+
+Lemma getopts_next_total : forall runes_of str_of_runes index_rune optstr args g,
+  0 <= g_arg g -> 0 <= g_rune g ->
+  getopts_next runes_of str_of_runes index_rune optstr args g <> Panic.
+Proof.
+  intros r s i o a g A R.
+  assert (H : exists g' x y d, getopts_next r s i o a g = Ok (g', x, y, d) /\ 0 <= g_arg g' /\ 0 <= g_rune g')
+    by (unshelve eapply getopts_next_ok; try assumption; dummies).
+  destruct H as (g' & x & y & d & E & _). rewrite E; discriminate.
+Qed.
+
+Lemma set_total : forall args st, inv st -> exists v, bi_set args st = Ok v.
+Proof.
+  intros args st I. assert (H : okinv (bi_set args st)) by (unshelve eapply bi_set_ok; try assumption; dummies).
+  destruct H as (v & E & _). eauto.
+Qed.
+
+Lemma break_continue_total : forall atoi cont args st, inv st -> bi_break atoi cont args st <> Panic.
+Proof. intros atoi cont args st I. via bi_break_ok. Qed.
+Lemma exit_total : forall atoi args st, inv st -> bi_exit atoi args st <> Panic.
+Proof. intros atoi args st I. via bi_exit_ok. Qed.
+Lemma return_total : forall atoi args st, inv st -> bi_return atoi args st <> Panic.
+Proof. intros atoi args st I. via bi_return_ok. Qed.
+Lemma wait_total : forall atoi64 args st, inv st -> bi_wait atoi64 args st <> Panic.
+Proof. intros atoi64 args st I. via bi_wait_ok. Qed.
+Lemma pushd_total : forall change_dir args st, inv st -> bi_pushd change_dir args st <> Panic.
+Proof. intros cd args st I. via bi_pushd_ok. Qed.
+Lemma popd_total : forall change_dir args st, inv st -> bi_popd change_dir args st <> Panic.
+Proof. intros cd args st I. via bi_popd_ok. Qed.
+Lemma dirs_total : forall args st, inv st -> bi_dirs args st <> Panic.
+Proof. intros args st I. apply okinv_not_panic. apply bi_dirs_ok; assumption. Qed.
+
+(* without the invariant pushd -n DIR does panic: the invariant is needed, not decoration *)
+Lemma pushd_needs_inv : exists change_dir args st, bi_pushd change_dir args st = Panic.
+Proof.
+  exists (fun _ _ => None), [b "-n"; b "x"], (set_dirstack (init_state (b "/T")) []).
+  vm_compute. reflexivity.
+Qed.
+
+Lemma history_total :
+  forall atoi atoi64 itoa runes_of str_of_runes index_rune valid_name change_dir cs st, inv st ->
+  exists st' ev code,
+    run_calls atoi atoi64 itoa runes_of str_of_runes index_rune valid_name change_dir cs st = Ok (st', ev, code)
+    /\ inv st'.
+Proof. intros. apply run_calls_ok; assumption. Qed.
+
+Definition hist_witness : list call :=
+  [CSet [b "--"; b "-ab"]; CGetopts [b "ab"; b "x"]; CSet [b "--"; b "-a"]; CGetopts [b "ab"; b "x"]; CShift [b "-1"]].
+
+Lemma history_nonvacuous :
+  exists st' ev, run_calls_c [b "/T"] hist_witness (init_state (b "/T")) = Ok (st', ev, 0) /\ params st' = [b "-a"].
+Proof. vm_compute. eexists _, _; split; reflexivity. Qed.
